@@ -65,6 +65,14 @@ void splinetable<Alloc>::fit(const ::ndsparse& data,
 			throw std::logic_error("Knot vector for dimension "
 			                       +std::to_string(i)+
 			                       " is not in sorted order");
+		if(knots[i].size()<2*uint64_t(splineOrder[i])+2)
+			throw std::logic_error("Knot vector for dimension "
+			                       +std::to_string(i)+" has too few knots ("
+			                       +std::to_string(knots[i].size())
+			                       +") for spline order "
+			                       +std::to_string(splineOrder[i])+"; at least "
+			                       +std::to_string(2*uint64_t(splineOrder[i])+2)
+			                       +" are required");
 	}
 	if(smoothing.size()!=data.ndim && smoothing.size()!=1)
 		throw std::logic_error("Number of smoothing strengths specified ("
